@@ -768,7 +768,33 @@ class _NPX(_types.ModuleType):
             return _map(x, lambda c: False) if isinstance(x, _np.ndarray) else False
         return _np.isinf(x)
 
+    def _reduce(name):
+        def red(self, a, *args, **k):
+            if hasattr(a, "vreduce"):
+                return a.vreduce(name)
+            if _is_obj(a) and not args and not k:
+                cells = [X(val(c)) for c in a.flat]
+                if name in ("max", "min"):
+                    best = cells[0]
+                    for c in cells[1:]:
+                        if (c > best) if name == "max" else (c < best):
+                            best = c
+                    return best
+                tot = cells[0]
+                for c in cells[1:]:
+                    tot = tot + c
+                return tot / len(cells)
+            return getattr(_np, name)(a, *args, **k)
+        red.__name__ = name
+        return red
+    max = amax = _reduce("max")
+    min = amin = _reduce("min")
+    mean = _reduce("mean")
+    del _reduce
+
     def sum(self, a, axis=None, **k):
+        if hasattr(a, "vreduce"):
+            return a.vreduce("sum")
         if _is_obj(a):
             if axis is None:
                 tot = 0
